@@ -1360,6 +1360,17 @@ pub fn configs(prop: CProp, tier: Tier) -> Vec<CCfg> {
                 callers[0].deadline_ms = 50;
                 out.push(base(callers, n, 1, Flavour::Coupled, 1, alpha | A_DRAIN));
             }
+            // a call whose deadline lies beyond the timers' range (1100 days, 30 years) is answered like
+            // any other
+            for far in [1100i64, 10_950] {
+                for n in 1..=2usize {
+                    let mut callers: Vec<CallerCfg> = (0..n).map(|_| CallerCfg::simple(true)).collect();
+                    callers[n - 1].deadline_ms = far * 86_400_000;
+                    // (no clock steps: a step of years with a request in flight and its woken
+                    // dispatch not polled is not an environment any executor produces)
+                    out.push(base(callers, 2, 1, Flavour::Always, 1, alpha & !A_ADVANCE));
+                }
+            }
             // a connection that goes idle between two calls: an unsolicited frame that arrives then
             // (possibly bearing the id the next call will be given) is gone when the next call is made
             for handle in [Handle::Own, Handle::Shared] {
@@ -1433,6 +1444,25 @@ pub fn configs(prop: CProp, tier: Tier) -> Vec<CCfg> {
                         CallerCfg { deadline_ms: 10_000, ..CallerCfg::simple(third_answered) },
                     ];
                     out.push(base(callers, 2, 1, fl, cap, A_ABANDON | A_ADVANCE | A_DRAIN));
+                }
+            }
+            // the transport refuses one request (the one fault that does not end the connection): that
+            // call fails, the requests queued behind it and made after it go out all the same (seeded
+            // changes C02j / C09j let the write pump report "nothing to do" after the refusal, with no
+            // waker left on the request queue)
+            for (fl, cap) in [(Flavour::Always, 1usize), (Flavour::Coupled, 1)] {
+                for n in 2..=3usize {
+                    for k in 1..=2u32 {
+                        for buf in [1usize, 2] {
+                            let mut callers: Vec<CallerCfg> = (0..n).map(|_| CallerCfg::simple(true)).collect();
+                            if n == 3 {
+                                callers[2].after = Some(0);
+                            }
+                            let mut c = base(callers, 2, buf, fl, cap, A_DRAIN);
+                            c.fault = Some(Fault { op: Op::Send, k, sticky: false, eof: false });
+                            out.push(c);
+                        }
+                    }
                 }
             }
             // at the in-flight limit (1): a queued call gives up (a cancellation for an id that is not
@@ -1511,6 +1541,21 @@ pub fn configs(prop: CProp, tier: Tier) -> Vec<CCfg> {
                     }
                 }
             }
+            // the caller lives on another thread: it may drop its call while the dispatch is inside the
+            // transport's start_send for that very request (a yield point at the start of the mock's
+            // start_send; seeded change C03j tracked a request only after the write and skipped the
+            // ones whose caller had gone meanwhile - transmitted, never cancelled)
+            if prop == CProp::C03 {
+                for (fl, cap) in [(Flavour::Always, 1usize), (Flavour::Coupled, 1)] {
+                    for n in 1..=2usize {
+                        let mut callers: Vec<CallerCfg> = (0..n).map(|_| CallerCfg::simple(true)).collect();
+                        callers[0].answered = false;
+                        let mut c = base(callers, 2, 1, fl, cap, A_ABANDON | A_PARKSEND | A_DRAIN);
+                        c.keep_root = true;
+                        out.push(c);
+                    }
+                }
+            }
             // the abandoned call's deadline is far beyond what the deadline timers support
             // (10 years): it is cancelled like any other (seeded change C03f armed no timer for
             // such a call and then lost its cancellation)
@@ -1554,10 +1599,23 @@ pub fn configs(prop: CProp, tier: Tier) -> Vec<CCfg> {
             // a caller may also give up at any point: the timer of an abandoned call must not
             // disturb the expiry of the others (found missing by seeded change C05c)
             let alpha = A_ADVANCE | A_REPLY_UNOWED | A_DRAIN | A_ABANDON;
-            let ds: &[i64] = &[-1000, 0, 1, 50, 1000, 10_000, 700 * 86_400_000];
+            // (beyond the timers' range too: 1100 days, 30 years - the call is answered all the same;
+            // seeded change C01j armed no timer for such a call and lost its reply)
+            let ds: &[i64] = &[-1000, 0, 1, 50, 1000, 10_000, 700 * 86_400_000, 1100 * 86_400_000, 10_950 * 86_400_000];
+            let span_ms = 730 * 86_400_000i64;
             for (fl, cap) in transports {
                 for mif in 1..=2usize {
                     for d0 in ds {
+                        if *d0 > span_ms {
+                            // beyond the supported span the timer is capped (DESIGN.md section 7), so
+                            // "never early" is not claimed and the clock is not stepped by years with
+                            // a request in flight; what is claimed is that the call is answered
+                            out.push(base(
+                                vec![CallerCfg { deadline_ms: *d0, ..CallerCfg::simple(true) }],
+                                mif, 1, *fl, *cap, alpha & !A_ADVANCE,
+                            ));
+                            continue;
+                        }
                         for ans in [true, false] {
                             out.push(base(
                                 vec![CallerCfg { deadline_ms: *d0, ..CallerCfg::simple(ans) }],
